@@ -88,7 +88,7 @@ type busWriter struct {
 }
 
 func (w *busWriter) Write(p []byte) (n int, err error) {
-	if uint32(len(p)) >= w.o+w.end {
+	if uint64(w.start)+uint64(w.o)+uint64(len(p)) > uint64(w.end) {
 		err = io.ErrUnexpectedEOF
 		return
 	}
